@@ -50,7 +50,17 @@ def programs(rnd, n):
         "k(X) :- X = f(A,B,C,D,E,F,G,H).\nk(Y) :- Y = g(Z1,Z2,Z3), j(Z3,Z2,Z1,Q1,Q2).\n",
     ]
     out.extend(fixed)
-    for _ in range(n - len(fixed)):
+    # compilations that raise at different stages (syntax, visitor, code generation of an expression,
+    # generator limits): whatever they leave behind must not change later outputs
+    poison = ["p(X, foo/2).\n", "p(X) :- q(Y, %s).\n" % ("9" * 5000), "cat(tom) :- 1.\n", "a(X) :- b(X),, c(X).\n", "'two words'(X) :- q(X).\n",
+              "deep(X) :- %s.\n" % ", ".join("g(X%d)" % i for i in range(25)), "t(X) :- X = %s.\n" % ("s(" * 150 + "z" + ")" * 150),
+              "k(X,Y) :- (a(X,A1) -> b(A1,B1) ; c(Y,C1)), foo/3.\n", "m(X) :- q(X, [A,B|T]), r(T, bar/1, Z).\n"]
+    k = max(1, (n - len(fixed)) // (len(poison) + 1))
+    i = 0
+    while len(out) < n:
+        if (len(out) - len(fixed)) % k == k - 1 and i < len(poison):
+            out.append(poison[i]); i += 1
+            continue
         s = gen.random_scenario(rnd, {"ctl", "meta", "cut", "db", "dyn"}, nclauses=3, depth=3)
         out.append(render_script(s["scripts"]["P"], "minimal"))
     return out
